@@ -317,7 +317,8 @@ let do_semit rest =
         | None -> "nil"
         | Some l -> Buffer.clear buf; first := true; last_s := false; List.iter st l; Buffer.contents buf) slots in
     print_endline (Printf.sprintf "semit %s/%s%s :: deep=%d %s" gid ast inl
-                     (if x_deep_table_b g (inl = "1") then 1 else 0) (String.concat ";" parts))
+                     ((if x_deep_table_b g (inl = "1") then 1 else 0) + (if x_alt2_b g then 2 else 0) + (if x_closed_names_b g then 4 else 0))
+                     (String.concat ";" parts))
   | _ -> failwith "semit: args"
 
 (* diag <id> (rg (def name expr) ...) *)
